@@ -59,14 +59,19 @@ Record head := mkHead { h_minT : Z; h_maxT : Z; h_minValid : Z;
                         h_series : sid -> mseries; h_tomb : sid -> list ivl }.
 Record block := mkBlock { b_mint : Z; b_maxt : Z; b_ooo : bool;
                           b_data : sid -> list sample; b_tomb : sid -> list ivl }.
-(* s_wal: every sample written to the WAL (appended without error in a committed transaction),
-   in log order; s_wtomb: every tombstone record Head.Delete logged.  WAL checkpoints are not
+(* s_wal: the WAL in log order: (i, None) = a series record of series i (written by the
+   appender that created the memSeries), (i, Some x) = a sample record (appended without error
+   in a committed transaction); s_wtomb: every tombstone record Head.Delete logged.  WAL checkpoints are not
    modelled (they only drop samples below an earlier truncation time). *)
 Record state := mkState { s_head : head; s_blocks : list block; s_fuelout : bool;
-                          s_wal : list (sid * sample); s_wtomb : list (sid * ivl) }.
+                          s_wal : list (sid * option sample); s_wtomb : list (sid * ivl);
+                          s_ref : sid -> nat }.
+(* s_ref i = k: the memSeries of series i carries the ref of the k-th series record of i in the
+   WAL (0: none).  A series that was garbage collected and created again gets a new ref; after a
+   restart every series carries the ref of its FIRST record (later records are mapped onto it). *)
 
 Definition head0 : head := mkHead maxInt64 minInt64 minInt64 (fun _ => ms_empty) (fun _ => []).
-Definition state0 : state := mkState head0 [] false [] [].
+Definition state0 : state := mkState head0 [] false [] [] (fun _ => O).
 
 Definition upd {A} (f : sid -> A) (k : sid) (v : A) : sid -> A := fun i => if i =? k then v else f i.
 
@@ -116,6 +121,10 @@ Definition commit1 (cr : Z) (h : head) (a : acc) : head :=
     mkHead (Z.min (h_minT h) (st x)) (Z.max (h_maxT h) (st x)) (h_minValid h)
            (upd (h_series h) i (append_io cr m x)) (h_tomb h).
 
+Definition is_none {A} (o : option A) : bool := match o with None => true | Some _ => false end.
+Definition count_markers (wal : list (sid * option sample)) (i : sid) : nat :=
+  length (filter (fun p => (fst p =? i) && is_none (snd p)) wal).
+
 (* initAppender.Append -> Head.initTime: the first Append of an appender obtained while the head
    was uninitialised sets maxTime and minTime to its timestamp at once (whatever becomes of the
    sample or of the appender) *)
@@ -128,11 +137,13 @@ Definition init_time (h : head) (first : option Z) : head :=
   end.
 
 (* one appender: [first] = timestamp of its first Append call (None: no Append at all);
-   [l] = the samples Commit stored; [logged] = the samples written to the WAL.  A rollback is
-   commit [] [] first. *)
-Definition commit (c : cfg) (l : list acc) (logged : list (sid * sample)) (first : option Z) (s : state) : state :=
+   [l] = the samples Commit stored; [logged] = what the appender wrote to the WAL: series
+   records of the series it created, then its sample records.  A rollback is commit [] markers first. *)
+Definition commit (c : cfg) (l : list acc) (logged : list (sid * option sample)) (first : option Z) (s : state) : state :=
   mkState (fold_left (commit1 (chunkRange c)) l (init_time (s_head s) first)) (s_blocks s) (s_fuelout s)
-          (s_wal s ++ logged) (s_wtomb s).
+          (s_wal s ++ logged) (s_wtomb s)
+          (fun i => if existsb (fun p => (fst p =? i) && is_none (snd p)) logged
+                    then S (count_markers (s_wal s) i) else s_ref s i).
 
 (* ---------------- Delete ---------------- *)
 Definition clamp (a b mint maxt : Z) : Z * Z := (Z.max a mint, Z.min b maxt).
@@ -169,7 +180,7 @@ Definition head_delete (mint maxt : Z) (sel : list sid) (h : head) : head :=
 
 Definition delete (mint maxt : Z) (sel : list sid) (s : state) : state :=
   mkState (head_delete mint maxt sel (s_head s)) (map (block_delete mint maxt sel) (s_blocks s)) (s_fuelout s)
-          (s_wal s) (s_wtomb s ++ head_stones mint maxt sel (s_head s)).
+          (s_wal s) (s_wtomb s ++ head_stones mint maxt sel (s_head s)) (s_ref s).
 
 (* ---------------- head garbage collection ---------------- *)
 (* memSeries.truncateChunksBefore: from the newest chunk backwards, the first chunk with
@@ -243,11 +254,11 @@ Definition compact_head_once (c : cfg) (s : state) : state :=
   let mint := h_minT h in
   let maxt := rangeFor mint (chunkRange c) in
   mkState (truncate_memory c h maxt) (add_block (universe c) (head_block h mint maxt) (s_blocks s)) (s_fuelout s)
-          (s_wal s) (s_wtomb s).
+          (s_wal s) (s_wtomb s) (s_ref s).
 
 Fixpoint compact_loop (c : cfg) (fuel : nat) (s : state) (did : bool) : state * bool :=
   match fuel with
-  | O => (mkState (s_head s) (s_blocks s) (s_fuelout s || compactable c (s_head s)) (s_wal s) (s_wtomb s), did)
+  | O => (mkState (s_head s) (s_blocks s) (s_fuelout s || compactable c (s_head s)) (s_wal s) (s_wtomb s) (s_ref s), did)
   | S f => if compactable c (s_head s) then compact_loop c f (compact_head_once c s) true else (s, did)
   end.
 
@@ -279,7 +290,7 @@ Definition compact_ooo (c : cfg) (s : state) : state :=
         let hi := lmax all in
         let starts := ranges lo hi w (Z.to_nat ((hi - lo) / w + 1)) in
         let bs := fold_left (fun acc t => add_block (universe c) (ooo_block h t w) acc) starts (s_blocks s) in
-        mkState (gc_adjust c (clear_ooo h)) bs (s_fuelout s) (s_wal s) (s_wtomb s)
+        mkState (gc_adjust c (clear_ooo h)) bs (s_fuelout s) (s_wal s) (s_wtomb s) (s_ref s)
     end
   else s.
 
@@ -298,7 +309,7 @@ Definition clean_block (u : list sid) (b : block) : list block :=
     if 0 <? num_samples u b' then [b'] else []
   else [b].
 Definition clean_tombstones (c : cfg) (s : state) : state :=
-  mkState (s_head s) (flat_map (clean_block (universe c)) (s_blocks s)) (s_fuelout s) (s_wal s) (s_wtomb s).
+  mkState (s_head s) (flat_map (clean_block (universe c)) (s_blocks s)) (s_fuelout s) (s_wal s) (s_wtomb s) (s_ref s).
 
 (* ---------------- Restart ---------------- *)
 (* DB.inOrderBlocksMaxTime *)
@@ -321,37 +332,58 @@ Definition replay1 (cr mv mmMax : Z) (m : mseries) (x : sample) : mseries :=
   else if negb (is_nil (ms_chunks m)) && (t <=? newest_max (ms_chunks m)) then m
   else append_io cr m x.
 
-Definition wal_of (wal : list (sid * sample)) (i : sid) : list sample :=
+Definition wal_of (wal : list (sid * option sample)) (i : sid) : list (option sample) :=
   map snd (filter (fun p => fst p =? i) wal).
 
-Definition restart_series (cr mv : Z) (wal : list sample) (ooo : list sample) (m : mseries) : mseries :=
-  let mm := mmapped_chunks m in
-  fold_left (replay1 cr mv (newest_max mm)) wal (mkMS mm 0 false ooo).
+(* Head.loadWAL for one series.  EVERY series record of the series (the first one, and the later
+   ones written when the series had been garbage collected and was created again) resets the
+   memSeries to the m-mapped chunks found on disk FOR THAT REF (resetSeriesWithMMappedChunks:
+   "any samples replayed till now would already be compacted"); the chunk files carry the ref the
+   memSeries had at Close (s_ref).  Sample records: below minValidTime or not above mmMaxTime ->
+   skipped; otherwise they count for Head.updateMinMaxTime and are appended unless
+   appendPreprocessor rejects them (not above the newest chunk's maxTime). *)
+Record rst := mkR { r_k : nat; r_m : mseries; r_mmMax : Z; r_mm : Z * Z }.
 
-(* the Head.updateMinMaxTime calls of the replay of one series: the m-mapped chunks, then every
-   replayed WAL sample that is not skipped (whether or not the append then accepts it) *)
-Definition restart_minmax (mv : Z) (wal : list sample) (m : mseries) (mm : Z * Z) : Z * Z :=
-  let mc := mmapped_chunks m in
-  let mm1 := match mc with [] => mm
-             | _ => (Z.min (fst mm) (oldest_min mc), Z.max (snd mm) (newest_max mc)) end in
-  let l := filter (fun x => negb ((st x <? mv) || (st x <=? newest_max mc))) wal in
-  match l with [] => mm1 | _ => (Z.min (fst mm1) (lmin l), Z.max (snd mm1) (lmax l)) end.
+Definition replay_entry (cr mv : Z) (refidx : nat) (mc : list chunk) (ooo : list sample)
+                        (r : rst) (e : option sample) : rst :=
+  match e with
+  | None =>
+      let k := S (r_k r) in
+      let cs := if Nat.eqb k refidx then mc else [] in
+      mkR k (mkMS cs 0 false ooo) (newest_max cs)
+          (match cs with [] => r_mm r
+           | _ => (Z.min (fst (r_mm r)) (oldest_min cs), Z.max (snd (r_mm r)) (newest_max cs)) end)
+  | Some x =>
+      let t := st x in
+      if (t <? mv) || (t <=? r_mmMax r) then r
+      else
+        let m := r_m r in
+        let m' := if negb (is_nil (ms_chunks m)) && (t <=? newest_max (ms_chunks m)) then m
+                  else append_io cr m x in
+        mkR (r_k r) m' (r_mmMax r) (Z.min (fst (r_mm r)) t, Z.max (snd (r_mm r)) t)
+  end.
+
+Definition restart_series (cr mv : Z) (refidx : nat) (wal : list (option sample)) (ooo : list sample)
+                          (m : mseries) (mm : Z * Z) : rst :=
+  fold_left (replay_entry cr mv refidx (mmapped_chunks m) ooo) wal (mkR O (mkMS [] 0 false ooo) minInt64 mm).
 
 Definition restart (c : cfg) (reloaded : sid -> list sample) (s : state) : state :=
   let h := s_head s in
   let b := inorder_blocks_maxt (s_blocks s) in
   let mv := match b with Some x => x | None => minInt64 end in
   let mm0 := match b with Some x => (x, x) | None => (maxInt64, minInt64) end in
-  let mm := fold_right (fun i a => restart_minmax mv (wal_of (s_wal s) i) (h_series h i) a) mm0 (universe c) in
+  let rs := fun i mm => restart_series (chunkRange c) mv (s_ref s i) (wal_of (s_wal s) i) (reloaded i) (h_series h i) mm in
+  let mm := fold_right (fun i a => r_mm (rs i a)) mm0 (universe c) in
   let minT := if fst mm <? mv then mv else fst mm in
   let h1 := mkHead minT (snd mm) mv
-              (fun i => restart_series (chunkRange c) mv (wal_of (s_wal s) i) (reloaded i) (h_series h i))
+              (fun i => r_m (rs i mm0))
               (fun i => filter (fun iv => mv <=? snd iv) (stones_of (s_wtomb s) i)) in
-  mkState (gc_only h1) (s_blocks s) (s_fuelout s) (s_wal s) (s_wtomb s).
+  mkState (gc_only h1) (s_blocks s) (s_fuelout s) (s_wal s) (s_wtomb s)
+          (fun i => if Nat.eqb (count_markers (s_wal s) i) 0 then O else 1%nat).
 
 (* ---------------- operations, runs ---------------- *)
 Inductive op :=
-| Commit (l : list acc) (logged : list (sid * sample)) (first : option Z)
+| Commit (l : list acc) (logged : list (sid * option sample)) (first : option Z)
 | Delete (mint maxt : Z) (sel : list sid)
 | Compact
 | CompactOOO
